@@ -1,4 +1,170 @@
 import AvroModel
+import AvroProofs.Lemmas.ParseWf
+/-!
+# C11 — the parser accepts only well-formed schemas (and is total)
+
+`parseJ` is a total function (every Lean function is), so "never panics or hangs" holds of the
+model by construction; the tie to the crate is the correspondence run on arbitrary JSON and mutated
+schemas.  Proved here: every accepted schema is well formed, for every input and every recursion
+budget, and what "well formed" implies in readable terms.  NOT part of `wfP` (false of the code, see
+`known-findings.json`): uniqueness of full names, validity of a decimal's precision for its fixed
+size.
+-/
 namespace Avro.C11
 open Avro
+
+/-- **Main theorem.** Whatever JSON value is given and whatever the recursion budget, a schema the
+parser accepts is well formed. -/
+theorem parse_wf (dflt : DfltFn) (fuel : Nat) (j : Json) (s : PSchema) (h : parseTop dflt fuel j = some s) :
+    wfP s = true := by
+  unfold parseTop at h
+  cases hp : parseJ dflt fuel {} j none with
+  | none => simp [hp] at h
+  | some r =>
+    obtain ⟨s', st'⟩ := r
+    simp [hp] at h
+    subst h
+    have hst : stOk ({} : PSt) := ⟨fun kv hkv => (by cases hkv), fun kv hkv => (by cases hkv)⟩
+    exact (parseJ_good dflt fuel _ _ _ _ _ hst hp).1
+
+/-- every name the parser builds matches the grammar: the name part is an identifier and the
+namespace, when there is one, is a non-empty dotted sequence of identifiers -/
+theorem names_match_grammar (s : Bytes) (e : Option Bytes) (n : PName) (h : PName.make s e = some n) :
+    isIdent n.name = true ∧ ∀ ns, n.ns = some ns → ns ≠ [] ∧ isNamespace ns = true := by
+  have := make_ok h
+  unfold PName.ok at this
+  simp only [Bool.and_eq_true] at this
+  refine ⟨this.1, fun ns hns => ?_⟩
+  rw [hns] at this
+  simp only [Bool.and_eq_true, Bool.not_eq_true', List.isEmpty_eq_false_iff] at this
+  exact ⟨this.2.1, this.2.2⟩
+
+/-- two branches of a union are of the same branch type when both are named alike, or both are
+unnamed and of the same base kind -/
+def sameBranchType (a b : PSchema) : Prop :=
+  match a.pname?, b.pname? with
+  | some x, some y => x = y
+  | none, none => a.baseKind = b.baseKind
+  | _, _ => False
+
+theorem unionNew_inv : ∀ (bs : List PSchema) (names : List PName) (kinds : List BaseKind),
+    unionNew bs names kinds = some () →
+      (∀ b ∈ bs, (∀ n, b.pname? = some n → n ∉ names) ∧ (b.pname? = none → b.baseKind ≠ .union ∧ b.baseKind ∉ kinds)) ∧
+      bs.Pairwise (fun a b => ¬ sameBranchType a b)
+  | [], _, _, _ => ⟨fun _ h => (by cases h), List.Pairwise.nil⟩
+  | s :: rest, names, kinds, h => by
+    unfold unionNew at h
+    cases hn : s.pname? with
+    | some n =>
+      simp only [hn] at h
+      by_cases hc : names.contains n = true
+      · rw [if_pos hc] at h; cases h
+      · rw [if_neg hc] at h
+        have hc' : n ∉ names := fun hm => hc (List.contains_iff_mem.mpr hm)
+        obtain ⟨ih1, ih2⟩ := unionNew_inv rest (n :: names) kinds h
+        refine ⟨?_, List.Pairwise.cons ?_ ih2⟩
+        · intro b hb
+          rcases List.mem_cons.mp hb with rfl | hb
+          · refine ⟨fun m hm => ?_, fun hm => ?_⟩
+            · rw [hn] at hm; cases hm; exact hc'
+            · rw [hn] at hm; cases hm
+          · obtain ⟨h1, h2⟩ := ih1 b hb
+            exact ⟨fun m hm hmem => h1 m hm (List.mem_cons_of_mem _ hmem), h2⟩
+        · intro b hb hs
+          unfold sameBranchType at hs
+          rw [hn] at hs
+          cases hb' : b.pname? with
+          | none => simp [hb'] at hs
+          | some m =>
+            simp only [hb'] at hs
+            subst hs
+            exact (ih1 b hb).1 n hb' (by simp)
+    | none =>
+      simp only [hn] at h
+      by_cases hu : (s.baseKind == BaseKind.union) = true
+      · rw [if_pos hu] at h; cases h
+      · rw [if_neg hu] at h
+        by_cases hk : kinds.contains s.baseKind = true
+        · rw [if_pos hk] at h; cases h
+        · rw [if_neg hk] at h
+          have hk' : s.baseKind ∉ kinds := fun hm => hk (List.contains_iff_mem.mpr hm)
+          obtain ⟨ih1, ih2⟩ := unionNew_inv rest names (s.baseKind :: kinds) h
+          refine ⟨?_, List.Pairwise.cons ?_ ih2⟩
+          · intro b hb
+            rcases List.mem_cons.mp hb with rfl | hb
+            · refine ⟨fun m hm => ?_, fun _ => ⟨?_, hk'⟩⟩
+              · rw [hn] at hm; cases hm
+              · intro he; exact hu (by rw [he]; rfl)
+            · obtain ⟨h1, h2⟩ := ih1 b hb
+              exact ⟨h1, fun hm => ⟨(h2 hm).1, fun hmem => (h2 hm).2 (List.mem_cons_of_mem _ hmem)⟩⟩
+          · intro b hb hs
+            unfold sameBranchType at hs
+            rw [hn] at hs
+            cases hb' : b.pname? with
+            | some m => simp [hb'] at hs
+            | none =>
+              simp only [hb'] at hs
+              exact ((ih1 b hb).2 hb').2 (by rw [← hs]; simp)
+
+/-- an accepted union contains no union directly, and no two branches of the same branch type
+(equal names, or both unnamed with the same base kind) -/
+theorem union_rules (bs : List PSchema) (h : wfP (.union bs) = true) :
+    (∀ b ∈ bs, b.baseKind ≠ .union) ∧ bs.Pairwise (fun a b => ¬ sameBranchType a b) := by
+  simp only [wfP, Bool.and_eq_true, Option.isSome_iff_exists] at h
+  obtain ⟨⟨u, hu⟩, _⟩ := h
+  cases u
+  obtain ⟨h1, h2⟩ := unionNew_inv bs [] [] hu
+  refine ⟨fun b hb => ?_, h2⟩
+  cases hn : b.pname? with
+  | none => exact ((h1 b hb).2 hn).1
+  | some n =>
+    intro hk
+    cases b <;> first
+      | (simp [PSchema.pname?] at hn; done)
+      | (rename_i inner; cases inner <;> simp [PSchema.baseKind] at hk)
+      | (simp [PSchema.baseKind] at hk; done)
+
+theorem fieldLookup_inv : ∀ (fs : List (FieldHdr × PSchema)) (keys : List Bytes), fieldLookupOk fs keys = true →
+    (fs.map (fun f => f.1.name)).Nodup ∧ ∀ f ∈ fs, f.1.name ∉ keys
+  | [], _, _ => ⟨List.nodup_nil, fun _ h => (by cases h)⟩
+  | (hd, s) :: rest, keys, h => by
+    unfold fieldLookupOk at h
+    by_cases hc : keys.contains hd.name = true
+    · rw [if_pos hc] at h; cases h
+    · rw [if_neg hc] at h
+      obtain ⟨ih1, ih2⟩ := fieldLookup_inv rest _ h
+      refine ⟨?_, ?_⟩
+      · simp only [List.map_cons, List.nodup_cons]
+        refine ⟨fun hmem => ?_, ih1⟩
+        obtain ⟨f, hf, hfe⟩ := List.mem_map.mp hmem
+        exact ih2 f hf (by rw [hfe]; simp)
+      · intro f hf
+        rcases List.mem_cons.mp hf with rfl | hf
+        · intro hmem; exact hc (List.contains_iff_mem.mpr hmem)
+        · intro hk
+          exact ih2 f hf (by simp [hk])
+
+/-- an accepted record has a well-formed name, field names that are identifiers and pairwise
+distinct, and well-formed field types -/
+theorem record_rules (n : PName) (al : Option (List PName)) (doc : Option Bytes) (fields : List (FieldHdr × PSchema))
+    (attrs : Attrs) (h : wfP (.record n al doc fields attrs) = true) :
+    n.ok = true ∧ (fields.map (fun f => f.1.name)).Nodup ∧ wfPFields fields = true := by
+  simp only [wfP, Bool.and_eq_true] at h
+  exact ⟨h.1.1, (fieldLookup_inv fields [] h.1.2).1, h.2⟩
+
+/-- an accepted enum has a well-formed name, symbols that are identifiers and pairwise distinct,
+and a default (if any) that is one of the symbols -/
+theorem enum_rules (n : PName) (al : Option (List PName)) (doc : Option Bytes) (syms : List Bytes) (d : Option Bytes)
+    (attrs : Attrs) (h : wfP (.enum n al doc syms d attrs) = true) :
+    n.ok = true ∧ (∀ s ∈ syms, isIdent s = true) ∧ syms.Nodup ∧ (∀ x, d = some x → x ∈ syms) := by
+  simp only [wfP, Bool.and_eq_true, decide_eq_true_eq, List.all_eq_true] at h
+  refine ⟨h.1.1.1, h.1.1.2, h.1.2, fun x hx => ?_⟩
+  subst hx
+  simpa [optMem] using h.2
+
+/-- an accepted decimal has `1 ≤ precision` and `scale ≤ precision` -/
+theorem decimal_rules (p sc : Nat) (inner : Option FixedP) (h : wfP (.decimal p sc inner) = true) : 1 ≤ p ∧ sc ≤ p := by
+  simp only [wfP, Bool.and_eq_true, decide_eq_true_eq] at h
+  exact ⟨h.1.1, h.1.2⟩
+
 end Avro.C11
